@@ -28,6 +28,10 @@ pub struct RunloopSc {
     /// by the real run()) before the judged run: every run() has its own budgets.
     #[serde(default)]
     pub prelude: Vec<ISpec>,
+    /// Both sides use an instruction set that was never loaded (`InstructionSet::new()`): every
+    /// instruction item is unknown and is skipped, by run() exactly as by step().
+    #[serde(default)]
+    pub empty_iset: bool,
 }
 
 /// The earlier run on the same state. `Err` if it panicked (C01's matter).
@@ -237,6 +241,7 @@ pub fn generate(seed: u64, instrs: &[String]) -> RunloopSc {
         env,
         family: family.to_string(),
         prelude,
+        empty_iset: r.chance(1, 16),
     }
 }
 
@@ -289,6 +294,8 @@ fn viol(class: &str, site: &str, detail: String, ev: u64) -> Violation {
 
 /// The reference loop on state B.
 pub fn reference(sc: &RunloopSc, iset: &mut InstructionSet, names: &[String], max_steps: u64) -> RefResult {
+    let mut unloaded = InstructionSet::new();
+    let iset = if sc.empty_iset { &mut unloaded } else { iset };
     let mut violations = vec![];
     simenv::begin(&sc.env, envelope(), names, None);
     let mut st = sc.state.build(&sc.cfg);
@@ -395,6 +402,8 @@ pub struct Executed {
 pub fn execute(sc: &RunloopSc, iset: &mut InstructionSet, names: &[String]) -> Executed {
     let max_steps = (sc.cfg.eval_push_limit.max(0) as u64) + 8;
     let rf = reference(sc, iset, names, max_steps);
+    let mut unloaded = InstructionSet::new();
+    let iset = if sc.empty_iset { &mut unloaded } else { iset };
     let mut violations = rf.violations;
     simenv::begin(&sc.env, envelope(), names, None);
     let mut st = sc.state.build(&sc.cfg);
